@@ -4,6 +4,7 @@ import D2P.Proofs.Elems
 import D2P.Props.C02Stray
 import D2P.Props.C02BodyStray
 import D2P.Props.C02Notes
+import D2P.Props.C02Deep
 /-!
 # Open findings, as kernel-checked witnesses
 
@@ -109,6 +110,23 @@ def fullDoc : Xml := el 100 "document" [] none [strayDoc]
 theorem document_witness :
     partItemsOK fullDoc = true ∧ fullDoc.ptag = documentTag ∧ strayDoc.ptag = bodyTag ∧
     (newDepthCollector cfg [] fullDoc >>= runStrs) = .ok [[lit "a"], [lit "<latex>z</latex>"], [lit "b"], [lit "c"]] := by
+  decide +kernel
+
+/-- a body with a content control (`w:sdt` > `w:sdtContent`) holding a paragraph, a display equation and a
+`w:customXml` around another paragraph -/
+def sdtDoc : Xml :=
+  el 0 "body" [] none [p 1 [r 2 [t 3 "a"]],
+    el 4 "sdt" [] none [el 5 "sdtPr" [] none [], el 6 "sdtContent" [] none [p 7 [r 8 [t 9 "in"]], strayEq,
+      el 14 "customXml" [] none [p 15 [r 16 [t 17 "deep"]]]]],
+    p 20 [r 21 [t 22 "z"]]]
+def cfgNoDup : PartCfg := { html := false, dup := false, rels := [] }
+
+/-- non-vacuity of `C02_deep_once_in_order`: the hypotheses hold, and both sides of its conclusion evaluate to the
+paragraph identities in document order -/
+theorem deep_witness :
+    deepPartOK sdtDoc = true ∧
+    sdtDoc.kids.flatMap (fun k => if deep 6 k then out 6 k else []) = [1, 7, 15, 20] ∧
+    (match newDepthCollector cfgNoDup [] sdtDoc with | .ok dc => elemsOf (leafParsL dc.root) | .error _ => []) = [1, 7, 15, 20] := by
   decide +kernel
 
 end D2P.Ex
